@@ -181,6 +181,14 @@ def run_trace(ops, root):
             st.idx[key] = st.entry(key, a["e"])
         elif op == "Del":
             del st.idx[tuple(a["k"].split("/"))]
+        elif op == "Elsewhere":
+            # a second SQLite-backed index of this process, another file: same key, the given entry; committed and read
+            if getattr(st, "other", None) is None:
+                st.other = DataIndex.open(os.path.join(root, "other.db"))
+            key = tuple(a["k"].split("/"))
+            st.other[key] = st.entry(key, a["e"])
+            st.other.commit()
+            list(st.other._trie.items())
         elif op == "Iter":
             list(st.idx.iteritems())
         elif op == "Commit":
@@ -204,6 +212,8 @@ def run_trace(ops, root):
         ev["live"] = st.listing()
         events.append(ev)
     st.idx.close()
+    if getattr(st, "other", None) is not None:
+        st.other.close()
     return events
 
 
@@ -244,6 +254,9 @@ def directed_ops():
         out.append(base + [{"op": "Commit"}, {"op": "Iter"}, {"op": "Commit"}, {"op": "Reopen"}, {"op": "Iter"}])
         out.append(base + [{"op": "Iter"}, {"op": "Reopen"}, {"op": "Attach"}, {"op": "Iter"}, {"op": "Commit"}, {"op": "Reopen"}])
         out.append(base + [{"op": "Export", "kind": "json"}, {"op": "Export", "kind": "db"}, {"op": "Commit"}, {"op": "Reopen"}])
+        # another index of the same process written under the same keys, between the commit and the reopen / the reads
+        out.append(base + [{"op": "Commit"}, {"op": "Elsewhere", "k": "p", "e": E("none", "none", "N")}, {"op": "Elsewhere", "k": "d", "e": E("f", "h", "T")},
+                           {"op": "Reopen"}, {"op": "Attach"}, {"op": "Iter"}, {"op": "Commit"}, {"op": "Reopen"}])
     return out
 
 
@@ -254,7 +267,7 @@ def check(run: core.Run, replay=None):
     validate.run_design(run, "SerializeTables", "SerializeTables_quick.cfg", workers=8,
                         constants={"metas": 78732, "hashes": 12})
     validate.run_design(run, "MC_IndexStore", "IndexStore_quick.cfg" if quick else "IndexStore_thorough.cfg",
-                        workers=16, required_actions=["Set", "Del", "Iter", "Commit", "Reopen", "Attach", "Export"],
+                        workers=16, required_actions=["Set", "Del", "Elsewhere", "Iter", "Commit", "Reopen", "Attach", "Export"],
                         constants={"keys": ["p", "d", "d/x", "d/y"], "lazy": ["d"], "MaxSteps": 5 if quick else 6})
     # ---- tables ----
     metas = list(all_metas())
